@@ -171,6 +171,8 @@ def classify(lines, idx, verdict):
             r2x = rows_of_slot(lines, opi, op[3]) if len(op) == 4 else None
             tags += overflow_tags([rr, r2x], op[3:], tname, cls)
             if op[1] in tainted: tags.append("operand_not_OK_after_" + tainted[op[1]])
+            if name == "simplify_ctx" and t[1:] == ["SIGABRT"] and type_class(tshort) != "rational":
+                tags.append("simplify_target_never_reached_inexact_T")
             # the crash may come from printing the result of the op (res lines already written)
             if any(l.startswith("res " + op[1] + " ") for l in lines[opi:idx]): tags.append("crash_after_result_reported")
         elif op is not None:
